@@ -3,4 +3,6 @@ let entries : (string * (byte list -> byte list)) list = [
   "omap_model", omap_model_line;
   "omap_spec", omap_spec_line;
   "num_model", num_model_line;
+  "json_model", json_model_line;
+  "render_model", render_model_line;
 ]
